@@ -62,7 +62,7 @@ CHECKS = {
     "C07": dict(
         technique="bounded-exhaustive enumeration of expression trees x spelling variants with a Python-operator evaluation of the tree as oracle; Hypothesis larger trees in float/Decimal/Fraction registries; mutation-based malformed inputs; audit-hook monitored parsing of hostile and random strings; coverage-guided atheris/libFuzzer campaigns (thorough tier) with an audit-hook, a Python-grammar differential and a structural oracle inside the target",
         text="Every tree with <= 3 leaves (<= 4 in thorough) over {2,3,m,s} x {+,-,*,/,//,**} with one optional unary minus is rendered with exactly the "
-             "parentheses Python needs, in up to 36 spelling variants (explicit *, blank and parenthesis juxtaposition, ^, superscripts, redundant parentheses, "
+             "parentheses Python needs, in up to 48 spelling variants (explicit *, blank, parenthesis and blank-free juxtaposition, ^, superscripts, redundant parentheses, "
              "whitespace) and must parse to the value/type/error class of the tree evaluated with Python operators. Word forms, larger random trees in all three "
              "numeric configurations, every +/- / a(b) uncertainty notation with signs and exponents, malformed strings (must raise) and a sys.addaudithook "
              "monitor over hostile/random strings (no exec/compile/import/open/os/socket events, no foreign objects returned) complete the check.",
